@@ -102,6 +102,7 @@ class FuncExec(ExprMixin, CallMixin):
         self.closure = {}
         self.synth = {}
         self.synth_keep = []
+        self.array_facts = {}     # array const name -> [facts]
 
     # ------------------------------------------------------------------
     def loop_ordinal(self, node):
@@ -117,9 +118,43 @@ class FuncExec(ExprMixin, CallMixin):
             return
         if z3.is_true(goal):
             goal = z3.BoolVal(True)
+        self.close_heap(st)
         ob = Obligation(self.qual, kind, label, st.pc, goal, st.trace, lineno)
+        self.attach_facts(ob)
         self.obligations.append(ob)
         st.assume(goal)
+
+    def drain_arrays(self):
+        from . import state as _state
+        while _state.NEW_ARRAYS:
+            f, a = _state.NEW_ARRAYS.pop()
+            key = a.decl().name()
+            if key in self.array_facts:
+                continue
+            facts = []
+            for h in self.reg.array_hooks:
+                facts.extend(h(self.eng, f, a))
+            self.array_facts[key] = facts
+
+    def attach_facts(self, ob):
+        from .engine import consts_of
+        self.drain_arrays()
+        names = consts_of(list(ob.pc) + [ob.goal])
+        facts = []
+        todo = [n for n in names if n in self.array_facts]
+        seen = set()
+        while todo:
+            n = todo.pop()
+            if n in seen:
+                continue
+            seen.add(n)
+            fs = self.array_facts.get(n, [])
+            facts.extend(fs)
+            self.drain_arrays()
+            for m in consts_of(fs):
+                if m in self.array_facts and m not in seen:
+                    todo.append(m)
+        ob.facts = facts
 
     def spec_env(self, st, result=None, exc=None, pre=None):
         names = dict(st.locals)
@@ -188,6 +223,7 @@ class FuncExec(ExprMixin, CallMixin):
         # vacuity guard: the entry hypotheses must be satisfiable
         if c.covers:
             ob = Obligation(self.qual, "cover", "entry", st.pc, z3.BoolVal(True), ["entry"], self.fn.lineno, expect_sat=True)
+            self.attach_facts(ob)
             self.obligations.append(ob)
         self.entry_heap = st.heap.copy()
         outs = self.exec_block(self.fn.body, st)
@@ -238,17 +274,24 @@ class FuncExec(ExprMixin, CallMixin):
                     g = z3.ForAll([x], z3.Implies(self.entry_heap.sel("$alloc", x),
                                                   z3.Select(st.heap.get(f), x) == z3.Select(self.entry_heap.get(f), x)))
                     self.oblige(st, "frame", f, g, ln)
+        if c.pure_when:
+            cond = SpecEnv(self.eng, dict(self.entry_names), self.entry_heap, self.entry_heap, fx=self).formula(c.pure_when)
+            if st.heap.epoch != self.entry_heap.epoch:
+                self.oblige(st, "frame", "pure-when", z3.Not(cond), ln)
+            else:
+                for f in st.heap.changed_fields(self.entry_heap):
+                    self.oblige(st, "frame", "pure-when:" + f, z3.Implies(cond, st.heap.get(f) == self.entry_heap.get(f)), ln)
         if c.inv_exit:
             inv = self.eng.inv(st.heap)
-            if inv:
-                self.oblige(st, "inv", "exit", z3.And(*inv), ln)
+            for i, f in enumerate(inv):
+                self.oblige(st, "inv", "exit.%d" % (i + 1), f, ln)
         ts = c.two_state
         if ts is None:
             ts = True
         if ts:
             t2 = self.eng.two_state(self.entry_heap, st.heap, c.labels.get("ts_skip", ()))
-            if t2:
-                self.oblige(st, "two-state", "exit", z3.And(*t2), ln)
+            for i, f in enumerate(t2):
+                self.oblige(st, "two-state", "exit.%d" % (i + 1), f, ln)
 
     # ------------------------------------------------------------------
     # statements
